@@ -181,6 +181,56 @@ def expr_root_kind(e):
     return e[0]
 
 
+def qd_job_lifetime(ctx):
+    """A job lives in its queue, in the hands of the runner that is polling it, or nowhere: a runner hands the job it took either back to
+    the queue (`requeue`, when it is suspended) or to its destructor, at once.  Its destruction is a signal - a blocked `sync` is released
+    when its job object dies, a result future is cancelled when its signaller dies - so a finished job that is parked in a slot "until
+    later" (an `Option` kept across loop turns, a batch, a field) delays that signal past the next job's run."""
+    F = ctx.F
+    out = []
+    R = 'QD-queue'
+    n = 0
+    for name in ('desync::JobQueue::drain', 'desync::JobQueue::run_one_job_now', 'desync::SchedulerFuture::drain_queue'):
+        fn = F.fn(name)
+        if not fn:
+            continue
+        def is_job(l):
+            ty = clean_ty(fn.local_ty(l) or '').strip()
+            return ty.startswith('alloc::boxed::Box<dyn(desync::ScheduledJob')
+        jobs = set(i for i in range(len(fn.locals)) if is_job(i))
+        if not jobs:
+            continue
+        n += 1
+        key = '%s|a-taken-job-is-requeued-or-dropped' % short(name)
+        probs = []
+        for bb, b in enumerate(fn.blocks):
+            if b['cleanup']:
+                continue
+            for s_ in b['stmts']:
+                if s_['k'] != 'assign':
+                    continue
+                rv = s_['rv']
+                if rv['k'] == 'agg':
+                    for o in rv.get('ops', []):
+                        if o['k'] in ('move', 'copy') and not o['pl']['p'] and o['pl']['l'] in jobs:
+                            probs.append((bb, 'is stored in a `%s` value' % str(rv.get('adt') or rv.get('ak')).split('::')[-1]))
+                elif rv['k'] in ('use', 'cast') and rv['op']['k'] in ('move', 'copy') and not rv['op']['pl']['p'] and rv['op']['pl']['l'] in jobs and s_['pl']['p']:
+                    probs.append((bb, 'is moved into `%s`' % s_['pl'].get('t', '?')))
+            t = b['term']
+            if t and t['k'] == 'call':
+                nm = t['func'].get('fn') or ''
+                for a in t['args']:
+                    if a['k'] in ('move',) and not a['pl']['p'] and a['pl']['l'] in jobs and not nm.endswith(('JobQueue::requeue', 'mem::drop')):
+                        probs.append((bb, 'is handed to %s' % nm.split('::')[-1]))
+        if probs:
+            out.append(bad(R, key, 'in %s a job taken from the queue %s instead of being put back or destroyed at once: its destructor - which releases the sync() caller waiting for it, or cancels the future waiting for its result - runs only later, after other jobs' % (short(name), probs[0][1]), loc=fn.loc(probs[0][0]), fn=fn.name))
+        else:
+            out.append(ok(R, key, 'a job taken from the queue only goes back through requeue() or to its destructor', fn=fn.name))
+    if n < 3:
+        out.append(undecided(R, 'floor:job-lifetime', 'only %d of the 3 runner functions hold a job local' % n))
+    return out
+
+
 def qd_schedule(ctx):
     """SchedulerCore.schedule: ready queues are appended, taken from the front by pool threads, removed by a stealing waiter."""
     out = []
